@@ -221,3 +221,21 @@ def register(reg: Registry) -> None:
         canaries=["result"],
         properties=["C14"],
     )
+
+    # C14 "compares equal to the original": SourceMapping.__eq__ answers True only for an object of exactly the same class
+    # with the same line and column, and answers True for such an object (type() support added to pyvc in session 4)
+    reg.contract(
+        SM + ":SourceMapping.__eq__",
+        types={"self": "Sub[SourceMapping]", "other": "Any"},
+        returns="bool",
+        ensures=[
+            "implies(not isinstance(other, SourceMapping), result == False)",
+            "implies(result, isinstance(other, SourceMapping) and self.line == typed(other, 'Sub[SourceMapping]').line and self.column == typed(other, 'Sub[SourceMapping]').column)",
+            "implies(other is self, result)",
+            # an op entry never equals a macro entry (C14: "identical op entries, macro entries")
+            "implies(isinstance(other, MacroSourceMapping) and not isinstance(self, MacroSourceMapping), result == False)",
+        ],
+        modifies=[],
+        canaries=["result"],
+        properties=["C14"],
+    )
